@@ -5,11 +5,12 @@ import json
 import core
 
 
-def gather(ctx, ns_min=0, tz="UTC", scale=1.0):
+def gather(ctx, ns_min=0, tz="UTC", scale=1.0, gapfrac=0.12, timevals=True):
     quick = ctx.tier == "quick"
     cnt = int((960 if quick else 24000) * scale)
     jobs = [{"script": "d_timeline.py", "tz": tz,
-             "stdin_obj": {"seed": ctx.seed * 9973 + k * 17 + ns_min, "mode": "draw", "count": max(1, cnt // core.NCPU), "ns_min": ns_min}}
+             "stdin_obj": {"seed": ctx.seed * 9973 + k * 17 + ns_min, "mode": "draw", "count": max(1, cnt // core.NCPU), "ns_min": ns_min,
+                           "gapfrac": gapfrac, "timevals": timevals}}
             for k in range(core.NCPU)]
     recs = []
     errors = []
@@ -32,7 +33,8 @@ def check(ctx, cfg, recs, prefix, zone=None):
 
 
 def zone_exports(ctx, tz):
-    recs, errors = gather(ctx, tz=tz, scale=0.12 if ctx.tier == "quick" else 0.1)
+    # (half of the time-scale drawings have data around the daylight-saving changes of the zones)
+    recs, errors = gather(ctx, tz=tz, scale=0.12 if ctx.tier == "quick" else 0.1, gapfrac=0.5, timevals=False)
     return [{"svg": r["svg"]["sha"], "tikz": r["tikz"]["sha"]} for r in recs]
 
 
